@@ -7,12 +7,12 @@ Line-protocol driver for C06 (op grammar: harness/hx-c06/src/lib.rs, module `enc
   view <nodes>                 -- a tuple of views rendered with `to_html()`
   head <title> <meta>*         -- what `inject_meta_context` inserts into `<head>`
 
-`<nodes>` is one word: node* with
-  node := 'T' hex ';'  |  'E' tag ';' attr* '>' node* '<'
-  attr := 'A' hex ';' hex ';' (plain) | 'B' hex ';' ('0'|'1') (boolean) | 'C' hex ';' (class)
-        | 'D' hex ';' ('0'|'1') (class toggle) | 'S' hex ';' (style) | 'K' hex ';' hex ';' (style pair)
-        | 'H' hex ';' (inner_html)
-hex = lower-case hex of the UTF-8 bytes (possibly empty); tag = [a-z0-9-]+.
+`<nodes>` is one word; the grammar (typed text / primitive children, child containers, typed
+attribute / class / style values) is documented in harness/hx-c06/src/enc.rs.  Value *types* do not
+change what is printed (every string type prints like `&str`, every attribute value type prints
+`escape_attr` of its Display text), so the decoder maps them onto `VNode` / `Attr`:
+`Some`, `Either::Left/Right` → the item; `None`, `()` → `unit`; `Vec` → `vec`; tuple, array,
+`StaticVec`, `Fragment` → `seq`; attribute/style `None` → nothing; `class(None)` → an empty class item.
 `<title>` is `-` (no title) or `t` hex; `<meta>` is `m` kind ',' hex ',' hex with kind
 n (name,content) p (property,content) c (charset) h (http-equiv,content) i (itemprop,content).
 
@@ -45,6 +45,21 @@ def boolField : List Char → Option (Bool × List Char)
   | '1' :: r => some (true, r)
   | _ => none
 
+/-- split at the first `:` -/
+def untilColon : List Char → Option (List Char × List Char)
+  | [] => none
+  | c :: cs => if c = ':' then some ([], cs) else (untilColon cs).map fun (a, b) => (c :: a, b)
+
+/-- `opt ty ':'` of a typed value: returns whether the value is `None` -/
+def tyField : List Char → Option (Bool × List Char)
+  | o :: r =>
+    if o = '=' || o = '?' || o = '-' then
+      match untilColon r with
+      | some (t, r) => if t.isEmpty || !t.all Char.isAlphanum then none else some (o = '-', r)
+      | none => none
+    else none
+  | [] => none
+
 partial def parseAttrs (cs : List Char) (acc : List Attr) : Option (List Attr × List Char) :=
   match cs with
   | '>' :: r => some (acc.reverse, r)
@@ -52,6 +67,12 @@ partial def parseAttrs (cs : List Char) (acc : List Attr) : Option (List Attr ×
     let (n, r) ← hexField r
     let (v, r) ← hexField r
     parseAttrs r (.plain n v :: acc)
+  | 'a' :: r => do
+    -- every attribute value type prints `escape_attr` of its Display text; `None` prints nothing
+    let (isNone, r) ← tyField r
+    let (n, r) ← hexField r
+    let (v, r) ← hexField r
+    parseAttrs r (if isNone then acc else .plain n v :: acc)
   | 'B' :: r => do
     let (n, r) ← hexField r
     let (b, r) ← boolField r
@@ -59,41 +80,90 @@ partial def parseAttrs (cs : List Char) (acc : List Attr) : Option (List Attr ×
   | 'C' :: r => do
     let (v, r) ← hexField r
     parseAttrs r (.cls v :: acc)
+  | 'c' :: r => do
+    -- `class(None)`: `Class::to_html` still pushes the separating space
+    let (isNone, r) ← tyField r
+    let (v, r) ← hexField r
+    parseAttrs r (.cls (if isNone then [] else v) :: acc)
   | 'D' :: r => do
+    let (n, r) ← hexField r
+    let (b, r) ← boolField r
+    parseAttrs r (.clsToggle n b :: acc)
+  | 'd' :: r => do
     let (n, r) ← hexField r
     let (b, r) ← boolField r
     parseAttrs r (.clsToggle n b :: acc)
   | 'S' :: r => do
     let (v, r) ← hexField r
     parseAttrs r (.style v :: acc)
+  | 's' :: r => do
+    let (isNone, r) ← tyField r
+    let (v, r) ← hexField r
+    parseAttrs r (if isNone then acc else .style v :: acc)
   | 'K' :: r => do
     let (n, r) ← hexField r
     let (v, r) ← hexField r
     parseAttrs r (.styleKV n v :: acc)
+  | 'k' :: r => do
+    let (isNone, r) ← tyField r
+    let (n, r) ← hexField r
+    let (v, r) ← hexField r
+    parseAttrs r (if isNone then acc else .styleKV n v :: acc)
   | 'H' :: r => do
     let (v, r) ← hexField r
     parseAttrs r (.innerHtml v :: acc)
+  | 'h' :: r => do
+    let (isNone, r) ← tyField r
+    let (v, r) ← hexField r
+    parseAttrs r (if isNone then acc else .innerHtml v :: acc)
   | _ => none
 
 def tagCharOK (c : Char) : Bool := nameChar c
 
+def contKinds : List Char := "VYWUFONLR".toList
+def itemTys : List Char := "Ssawociqv*".toList
+
 /-- nodes up to a closing `<` (depth > 0) or the end of input (depth = 0) -/
-partial def parseNodes (top : Bool) (cs : List Char) (acc : List Node) : Option (List Node × List Char) :=
+partial def parseNodes (top : Bool) (cs : List Char) (acc : List VNode) : Option (List VNode × List Char) :=
   match cs with
   | [] => if top then some (acc.reverse, []) else none
   | '<' :: r => if top then none else some (acc.reverse, r)
   | 'T' :: r => do
     let (s, r) ← hexField r
     parseNodes top r (.text s :: acc)
+  | 't' :: r => do
+    -- every string type prints like `&str`
+    let (t, r) ← untilColon r
+    if t.isEmpty || !t.all Char.isAlphanum then none
+    let (s, r) ← hexField r
+    parseNodes top r (.text s :: acc)
+  | 'P' :: r => do
+    let (t, r) ← untilColon r
+    if t.isEmpty || !t.all Char.isAlphanum then none
+    let (s, r) ← hexField r
+    parseNodes top r (.prim s :: acc)
+  | 'Z' :: r => parseNodes top r (.unit :: acc)
   | 'E' :: r => do
     let (tag, r) ← untilSemi r
     if tag.isEmpty || !tag.all tagCharOK then none
     let (attrs, r) ← parseAttrs r []
     let (kids, r) ← parseNodes false r []
     parseNodes top r (.elem tag attrs kids :: acc)
+  | k :: ity :: ':' :: r =>
+    if contKinds.contains k && itemTys.contains ity then do
+      let (kids, r) ← parseNodes false r []
+      -- Vec: items + trailing marker; None: the unit view; Some / Either: the item itself;
+      -- tuple, array, StaticVec, Fragment: the items in sequence
+      match k with
+      | 'V' => parseNodes top r (.vec kids :: acc)
+      | 'N' => if kids.isEmpty then parseNodes top r (.unit :: acc) else none
+      | 'O' | 'L' | 'R' => if kids.length = 1 then parseNodes top r (.seq kids :: acc) else none
+      | 'U' => parseNodes top r ((if kids.isEmpty then .unit else .seq kids) :: acc)  -- the 0-tuple is `()`
+      | _ => parseNodes top r (.seq kids :: acc)
+    else none
   | _ => none
 
-def decodeView (w : String) : Option (List Node) :=
+def decodeView (w : String) : Option (List VNode) :=
   if w == "-" then some [] else
   match parseNodes true w.toList [] with
   | some (ns, []) => some ns
@@ -128,12 +198,12 @@ def decodeTitle (w : String) : Option (Option Str) :=
 def anyStr (p : Char → Bool) (ss : List Str) : Bool := ss.any (fun s => s.any p)
 
 /-- known-finding class of a failing view -/
-def viewClass (v : List Node) : String :=
-  let ss := kidsStrings v
-  if !rawTextFreeKids v then "raw-text-child"
+def viewClass (v : List VNode) : String :=
+  let ss := vKidsStrings v
+  if !vRawTextFreeKids v then "raw-text-child"
   else if anyStr (· = cNul) ss then "nul-char"
   else if anyStr (· = cCr) ss then "cr-char"
-  else if hasInnerHtmlKids v then "inner-html"
+  else if vHasInnerHtmlKids v then "inner-html"
   else "unexpected"
 
 def headClass (title : Option Str) (metas : List Node) : String :=
@@ -151,8 +221,8 @@ def step (_ : Unit) (line : String) : Unit × String :=
     | ["view", w] =>
       match decodeView w with
       | some v =>
-        let html := toHtml v
-        let verdict := if parse html = some (structureOf v) then "ok" else s!"fail {viewClass v}"
+        let html := vToHtml v
+        let verdict := if parse html = some (vStructureOf v) then "ok" else s!"fail {viewClass v}"
         s!"{hexOfStr html} ## {verdict}"
       | none => "bad-op"
     | "head" :: tw :: ms =>
